@@ -106,7 +106,30 @@ FRAMES += [
     "import math as _{v}\n\n\nclass K:\n    def {v}(self, x):\n        return x + 1\n\n\nprint(K().{v}(1), _{v}.floor(2.5))\n",
 ]
 
-RULES = ["fixes.align_variable_names_with_convention", "fixes.undefine_unused_variables", "fixes.remove_duplicate_functions", "object_oriented.move_staticmethod_static_scope", "format_code"]
+FRAMES += [
+    # a module variable that only an earlier defined function reads; a second assignment between two calls
+    "def flat(rows):\n    return [c + {v} for c in rows]\n\n\n{v} = 10\nprint(flat([1, 2]))\n",
+    "{v} = 'a'\n\n\ndef show():\n    return {v}\n\n\nprint(show())\n{v} = 'b'\nprint(show())\n",
+    "{w} = lambda q: q + {v}\n{v} = 3\nprint({w}(1))\n",
+    # _ is a name that is read (gettext idiom): nothing may be renamed to it
+    "from gettext import gettext as _\n\n\ndef pair():\n    return 1, 2\n\n\ndef f():\n    {v}, {w} = pair()\n    return _('hello') + str({v})\n\n\nprint(f())\n",
+    "_ = str.upper\nfor i, {v} in enumerate('ab'):\n    print(_('x'), i)\n",
+    # assignments to names declared nonlocal / global
+    "def outer():\n    {v} = 0\n\n    def inner():\n        nonlocal {v}\n        {v} += 1\n\n    inner()\n    return 5\n\n\nprint(outer())\n",
+    "{v} = 0\n\n\ndef bump():\n    global {v}\n    {v} += 1\n\n\nbump()\nprint(globals().get('{v}'))\n",
+    # a comprehension merged into its enclosing one must not capture
+    "def above(ys, {v}):\n    return [{v} for {v} in [{w} for {w} in ys if {w} > {v}]]\n\n\nprint(above([1, 3, 4], 2))\n",
+    # 'duplicates' that differ in a constant that is no str or int, or in a global next to a comprehension variable of the same name
+    "def half(x):\n    return x * 0.5\n\n\ndef quarter(x):\n    return x * 0.25\n\n\nprint(half(8), quarter(8))\n",
+    "def fa(x):\n    return x is None, b'a', 1, 1j\n\n\ndef fb(x):\n    return x is ..., b'b', True, 2j\n\n\nprint(fa(None), fb(None))\n",
+    "{v} = 1\n{w} = 2\n\n\ndef fa(xs):\n    return [{v} for {v} in xs], {v}\n\n\ndef fb(xs):\n    return [{w} for {w} in xs], {w}\n\n\nprint(fa([0]), fb([0]))\n",
+    "def first(x):\n    return x + 1\n\n\ndef second(x):\n    return x + 1\n\n\ndef hash(x):\n    return x * 2\n\n\ndef digest(x):\n    return x * 2\n\n\nprint(first(1), second(1), hash(2), digest(2))\n",
+    # renamed definitions keep their type parameters; members of a class with a metaclass keep their names
+    "def {v}[T](x: T) -> T:\n    return x\n\n\nclass {w}[T]:\n    pass\n\n\nprint({v}(1), {w}[int].__name__ is not None)\n",
+    "class Meta(type):\n    def __new__(m, n, b, d):\n        d['names'] = sorted(k for k in d if not k.startswith('_'))\n        return super().__new__(m, n, b, d)\n\n\nclass K(metaclass=Meta):\n    {v} = 1\n\n\nprint(K.names)\n",
+]
+
+RULES = ["fixes.align_variable_names_with_convention", "fixes.undefine_unused_variables", "fixes.remove_duplicate_functions", "object_oriented.move_staticmethod_static_scope", "fixes.merge_nested_comprehensions", "format_code"]
 
 
 def work_names(chunk):
